@@ -354,6 +354,9 @@ def body_pickle_history(H, case):
     pickle, change a leaf's keyword argument in place, pickle again (also starting from an unpickled object)"""
     from tdgl.parameter import Parameter
 
+    _MODE["H"] = H
+    if H.mode == "sym":
+        CTX.opaque_eval.update({k: (lambda *a, _f=v: float(np.asarray(_f(*[np.asarray(x, dtype=float) for x in a])).ravel()[0])) for k, v in CONCRETE.items()})
     x, y = H.real("x", lo=-2.0, hi=2.0), H.real("y", lo=-2.0, hi=2.0)
     for origin in ("built", "unpickled"):
         for nm, op in OPS[:4]:
